@@ -561,7 +561,12 @@ class Reductions(Contract):
                 len({x % r for x in axis}) == len(axis)
             norm = [x % r for x in axis] if np_ok else []
         if res is None:
-            if np_ok:
+            nonneg_axes = axis is None or (
+                axis >= 0 if isinstance(axis, int)
+                else all(x >= 0 for x in axis))
+            if np_ok and nonneg_axes:
+                # (negative axes: pytato does not support them, by design --
+                # stricter than NumPy, which no property forbids)
                 # NumPy rejects max/min over an empty axis (no identity);
                 # nothing else about a valid axis argument
                 empty = z3.Or([shape_term(ns[d]) == 0 for d in norm]
